@@ -30,7 +30,7 @@ STUB_COMPONENTS = ["leaf processors (svsim.lib)", "RecordingExecutor", "SimClock
 ASSUMPTIONS = ["volatile fields are exactly: run_id (header and identity.run_id), timestamp, timing.started_at, "
                "timing.finished_at, timing.wall_ms, timing.cpu_ms, seq - nothing else is removed before comparing"]
 REQUIRED_PROBES = ["reused_pipeline_second_traced_run", "reused_pipeline_with_sweep", "failing_subject", "history_contains_other_config",
-                   "result_object_fed_back", "other_process_other_hashseed"]
+                   "result_object_fed_back", "other_process_other_hashseed", "cli_launch_repeated_with_same_launch_id"]
 CONFIG = {
     "quick": {"runs": 2000, "budget_s": 240, "timeout_s": 120},
     "thorough": {"runs": 60000, "budget_s": 1500, "timeout_s": 120},
@@ -72,8 +72,10 @@ def generate(rng: random.Random, tier: str, seed: int) -> dict:
         ops.append(["untraced", "A", None])
     rng.shuffle(ops)
     hs = rng.choice([1, 2, 3, 5, 7]) if (rng.random() < 0.12 or (fail and fail[0].startswith("unresolvable"))) else None
+    cli_pair = rng.choice([None, None, None, ["--run-space-launch-id", "L-1"], ["--run-space-idempotency-key", "K-1"],
+                           ["--run-space-launch-id", "L-1", "--run-space-attempt", "2"]])
     return {"A": subject, "B": dict(b, faults=[]), "ops": ops, "fail": fail, "A_truth": a.get("truth"), "remote_exec": rng.random() < 0.25,
-            "hashseed": hs}
+            "hashseed": hs, "cli_pair": cli_pair}
 
 
 def normalize(recs: list[dict]) -> list[dict]:
@@ -234,6 +236,24 @@ def execute(sc: dict, seed: int) -> dict:
                 if d:
                     viols.append(oracles.V("reproducible", f"trace_differs:{_field_of(d)}", f"op {i} ({how}) vs op {i0} ({how0}), detail={detail}: {d}"))
                     break
+        # the same run-space configuration launched twice through the CLI with a reproducible launch id: the two traces
+        # (all record types) are identical modulo the volatile fields
+        if sc.get("cli_pair") and sc["A"].get("init_data") is None and not sc.get("fail"):
+            pair = []
+            for k in range(2):
+                rs = {"blocks": [{"mode": "by_position", "context": {"rs_pair": [1.0, 2.0]}}]}
+                harness.write_cli_config(sc["A"], f"pair{k}.yaml", trace=harness.trace_cfg("file", "hash", f"pair{k}"), run_space=rs)
+                argv = ["run", f"pair{k}.yaml"] + sc["cli_pair"]
+                for kk, vv in sc["A"]["context"].items():
+                    argv += ["--context", f"{kk}={json.dumps(vv)}"]
+                first = len(w.emissions)
+                r = harness.run_cli(argv)
+                recs, _ = harness.parse_lines(w.emissions[first:])
+                pair.append((r["code"], normalize(recs)))
+            stats["probe.cli_launch_repeated_with_same_launch_id"] = 1
+            d = _first_diff(pair[0][1], pair[1][1]) or ("" if pair[0][0] == pair[1][0] else f"exit codes {pair[0][0]} vs {pair[1][0]}")
+            if d:
+                viols.append(oracles.V("reproducible", f"cli_launch_trace_differs:{_field_of(d)}", f"`semantiva run {' '.join(sc['cli_pair'])}` twice in one process: {d}"))
         # the "second" run may just as well happen in another process (its own hash seed): same trace modulo volatile fields
         if sc.get("hashseed") is not None and a_traced:
             detail = sorted(a_traced)[0]
@@ -266,6 +286,8 @@ def execute(sc: dict, seed: int) -> dict:
 def shrink_candidates(sc: dict):
     if sc.get("hashseed") is not None:
         yield dict(sc, hashseed=None)
+    if sc.get("cli_pair"):
+        yield dict(sc, cli_pair=None)
     ops = sc["ops"]
     for i in reversed(range(len(ops))):
         if len(ops) <= 2:
